@@ -218,6 +218,35 @@ CLAIMS = {
               "correspondence); crash inside one write is C04's subject; ack-before-write window of the actor noted in "
               "DESIGN.md"),
         technique="Lean 4 theorem (byte-level file model, induction over histories) + differential correspondence"),
+    "C08": dict(
+        category="proof",
+        text=("Theorems (lean/RNacos/Props/C08.lean) on a model of installation and restart that is generic in the state and "
+              "whose two switches - does apply_snapshot load the records, does the start-up path load the last snapshot - are "
+              "read off the source by the translator on every run: after a restart the node serves the installed snapshot's "
+              "data and keeps doing so (restart_after_install_serves_snapshot, restarts_keep_serving), the snapshot's "
+              "membership is recorded at once (install_records_membership). The first half of the property is FALSE on the "
+              "current tree and stated as such (install_without_restart_is_stale): known finding F10, replayed on a real "
+              "3-process cluster. Tie: translator + scenarios with real rnacos processes (two nodes, small snapshot "
+              "threshold, 30-70 writes, third node started late, restarted twice; all nodes' answers compared)."),
+        note=("partial: the model states the composition (install, restart) for an arbitrary state; that the snapshot file "
+              "carries every component is C01/C07; when a snapshot is sent is async-raft's decision (trusted); settling "
+              "times are generous bounds; 1 open finding F10"),
+        technique="translator-read switches + Lean 4 theorem (composition) + real 3-process cluster scenarios with an agreement oracle"),
+    "C15": dict(
+        category="proof",
+        text=("Theorems (lean/RNacos/Props/C15.lean) on a message-level model of the naming synchronisation (owner's instances, "
+              "pending changes, coalesced batches in flight over an ordered link, receiver's copy): for EVERY interleaving of "
+              "client operations, delayed flushes and deliveries, whenever nothing is pending and nothing is in flight the "
+              "receiver's copy equals the owner's instances (quiescent_copy_is_own, by the invariant 'copy + everything on its "
+              "way = owner'), two receivers agree (receivers_agree), and keeping only the last change per key does not change "
+              "a batch's effect (coalescing_sound). That the queues do drain is liveness over the real scheduler: explored on "
+              "real 3-process clusters (HTTP registrations addressed to arbitrary nodes, a kill/restart in between, lists of "
+              "every node compared after settling)."),
+        note=("partial: safety form of convergence only; 'eventually', node-death detection and gRPC-held instances are not "
+              "proved (no gRPC clients in the scenarios); the model is hand-written and tied to the code only through the "
+              "cluster scenarios' agreement oracle; observed: a register/deregister/register of one persistent instance "
+              "issued back to back can lose the last registration on every node (the nodes agree) - recorded in DESIGN.md"),
+        technique="Lean 4 theorem (invariant over all interleavings of a message-level model) + real 3-process cluster scenarios with an agreement oracle"),
     "C09": dict(
         category="proof",
         text=("Theorems (lean/RNacos/Props/C09.lean) by an invariant preserved by every operation (publish, remove, "
